@@ -237,22 +237,22 @@ func (bav3pr builtAsciiVector4PropertyReader) ClaimsProperty(prop Property) bool
 }
 
 func (bav3pr builtAsciiVector4PropertyReader) Read(buf []string, i int64) error {
-	xParsed, err := strconv.ParseFloat(buf[bav3pr.xOffset], 32)
+	xParsed, err := strconv.ParseFloat(buf[bav3pr.xOffset], asciiBitSize(bav3pr.scalarType))
 	if err != nil {
 		return err
 	}
 
-	yParsed, err := strconv.ParseFloat(buf[bav3pr.yOffset], 32)
+	yParsed, err := strconv.ParseFloat(buf[bav3pr.yOffset], asciiBitSize(bav3pr.scalarType))
 	if err != nil {
 		return err
 	}
 
-	zParsed, err := strconv.ParseFloat(buf[bav3pr.zOffset], 32)
+	zParsed, err := strconv.ParseFloat(buf[bav3pr.zOffset], asciiBitSize(bav3pr.scalarType))
 	if err != nil {
 		return err
 	}
 
-	wParsed, err := strconv.ParseFloat(buf[bav3pr.wOffset], 32)
+	wParsed, err := strconv.ParseFloat(buf[bav3pr.wOffset], asciiBitSize(bav3pr.scalarType))
 	if err != nil {
 		return err
 	}
